@@ -65,6 +65,40 @@ Theorem C07_incremental_equals_batch : forall P init ops sched,
 Proof. exact incremental_equals_batch. Qed.
 Print Assumptions C07_incremental_equals_batch.
 
+(* fault followed by continued use: an append_epoch that EpochManager rejects (the caller catches the
+   RuntimeError) leaves the engine state - manager, clock, keys, trace - exactly as it was, so the
+   rest of any operation sequence runs as if the rejected append had never been attempted *)
+Theorem C07_rejected_append_is_noop : forall P g c,
+  append_ok (lastc (cfgs (g_mgr g))) c = false ->
+  step P g (TryAppend c) = Ok g /\ forall ops, steps P g (TryAppend c :: ops) = steps P g ops.
+Proof. exact rejected_append_is_noop. Qed.
+Print Assumptions C07_rejected_append_is_noop.
+
+(* operation sequences with guarded appends = the sequence with the rejected appends deleted *)
+Theorem C07_run_normalize : forall P init ops,
+  run P init ops = run P init (normalize (lastc init) ops).
+Proof. exact run_normalize. Qed.
+Print Assumptions C07_run_normalize.
+
+(* the lifecycle theorem over operation sequences containing any number of rejected (and accepted)
+   guarded appends: the kernels are driven through the schedule of the ACCEPTED configs only, and the
+   final engine state (calls, keys, manager) is that of the batch run on that schedule *)
+Theorem C07_trace_is_lifecycle_guarded : forall chunk needs init ops sched,
+  valid sched = true -> sched = init ++ appended (normalize (lastc init) ops) ->
+  chunk_ok chunk sched -> ops_ok (length init) (normalize (lastc init) ops) = true ->
+  exists g, run (mkP chunk needs SetsFlag) init ops = Ok g
+    /\ calls g = spec_calls (length needs) (any_needs needs) sched
+    /\ cfgs (g_mgr g) = sched /\ has_more (g_mgr g) = false.
+Proof. exact trace_is_lifecycle_guarded. Qed.
+Print Assumptions C07_trace_is_lifecycle_guarded.
+
+Theorem C07_guarded_equals_batch : forall P init ops sched,
+  valid sched = true -> sched = init ++ appended (normalize (lastc init) ops) ->
+  chunk_ok (p_chunk P) sched -> ops_ok (length init) (normalize (lastc init) ops) = true ->
+  exists g, run P init ops = Ok g /\ run P sched [SampleAll] = Ok g.
+Proof. exact guarded_equals_batch. Qed.
+Print Assumptions C07_guarded_equals_batch.
+
 (* the fuel that totalises sample_all_epochs is never exhausted *)
 Theorem C07_no_fuel_error : forall P g, sample_all P g <> Err EOutOfFuel.
 Proof. exact sample_all_no_fuel_error. Qed.
@@ -93,3 +127,17 @@ Example C07_hypotheses_satisfiable :
                 /\ length (calls g) = 76%nat /\ count_endwarmup (calls g) = 2%nat).
 Proof. exact lifecycle_hypotheses_satisfiable. Qed.
 Print Assumptions C07_hypotheses_satisfiable.
+
+(* ... and with rejected appends of every kind (thinning > duration, second initial-values epoch,
+   duration 0, thinning not dividing a posterior duration, warm-up after posterior) in between *)
+Example C07_guarded_hypotheses_satisfiable :
+  valid ex_guarded_schedule = true
+  /\ ex_guarded_schedule = [mkE Init 1 1] ++ appended (normalize (lastc [mkE Init 1 1]) ex_guarded_ops)
+  /\ chunk_ok 2 ex_guarded_schedule
+  /\ ops_ok 1 (normalize (lastc [mkE Init 1 1]) ex_guarded_ops) = true
+  /\ rejected (lastc [mkE Init 1 1]) ex_guarded_ops
+     = [mkE Fast 2 3; mkE Init 1 1; mkE Fast 0 1; mkE Post 4 3; mkE Burnin 2 1]
+  /\ (exists g, run (mkP 2 [true] SetsFlag) [mkE Init 1 1] ex_guarded_ops = Ok g
+                /\ length (calls g) = 17%nat /\ count_endwarmup (calls g) = 1%nat).
+Proof. exact guarded_hypotheses_satisfiable. Qed.
+Print Assumptions C07_guarded_hypotheses_satisfiable.
